@@ -674,12 +674,175 @@ NONSCALAR = {
     'adaptive(2,)': ('d', lambda A: (A.v.adapt(A.z), A.v)[1]),
     'E(xz)(2,)': ('d', lambda A: _E()(A.x * A.z)),
     'E(x)(2,)': ('d', lambda A: _E()(A.x)),
+    # element-wise atoms with an array-valued argument
+    'abs(2,2)': ('rd', lambda A: abs(A.X)),
+    'abs(affine)(2,)': ('rd', lambda A: abs(2 * A.x + 1)),
+    'square(2,)': ('rd', lambda A: _rs().square(A.x)),
+    'exp(2,2)': ('rd', lambda A: _rs().exp(A.X)),
+    'softplus(2,)': ('rd', lambda A: _rs().softplus(A.x)),
+    'power(2,)': ('rd', lambda A: _rs().power(A.x, 3)),
+    'plog(2,)': ('rd', lambda A: _rs().plog(A.x, A.w)),
+    'pexp(2,)num-scale': ('rd', lambda A: _rs().pexp(A.x, 2.0)),
+    'pexp()vec-scale': ('rd', lambda A: _rs().pexp(A.y, A.x)),
+    'norm2(axis-kept)(2,)+vec': ('rd', lambda A: _rs().norm(A.x) + A.v),
+    'abs()+vec': ('rd', lambda A: abs(A.y) + A.v),
+    'abs()+arr': ('rd', lambda A: abs(A.y) + np.array([0.0, 10.0])),
+    'maxof(vec,vec)': ('rd', lambda A: _rs().maxof(A.x, A.v)),
+    'maxof(arr(2,),var)': ('rd', lambda A: _rs().maxof(np.array([0.0, 10.0]), A.y)),
+    'maxof([vec])': ('rd', lambda A: _rs().maxof([A.x])),
+    'maxof(var,vec-biaffine)': ('rd', lambda A: _rs().maxof(A.y, A.x * A.z)),
+    'E(maxof(vec,vec))': ('d', lambda A: _E()(_rs().maxof(A.x, A.v))),
+    'X@z(2,)': ('rd', lambda A: A.X @ A.z),
+    'biaffine+arr(2,)': ('rd', lambda A: A.x @ A.z + np.array([0.0, 10.0])),
+    'E(xz)+arr(2,)': ('d', lambda A: _E()(A.x @ A.z) + np.array([0.0, 10.0])),
 }
 SCALAR_OK = {
     'vars()': lambda A: A.y, 'slice[0]': lambda A: A.x[0], 'affine(1,)': lambda A: (2 * A.x + 1)[0:1],
     'affine(1,1)': lambda A: A.X[0:1, 0:1] * 2, 'sum': lambda A: A.x.sum(), 'xz': lambda A: A.x @ A.z,
     'abs()': lambda A: abs(A.y), 'float': lambda A: 1.5,
 }
+
+# ------------------------------------------------------------------------------------------------------------
+# (ii') non-scalar objectives as a grammar:  SCALAR base expression of every expression class  x  ROUTE that makes
+# it non-scalar  x  objective method.  The base is built in the curvature that is legal for the direction of the
+# method (cc = concave wanted), so the ONLY thing wrong with the objective is its size; routes that flip the
+# curvature (arr - b, b * negative array, -(...)) ask for the opposite base.
+# name: (front ends 'r' ro / 'd' dro / 'l' direct lp, socp, gcp;  builder(A, cc) -> scalar expression)
+NS_BASES = {
+    'var': ('rdl', lambda A, cc: A.y),
+    'slice': ('rdl', lambda A, cc: A.x[1]),
+    'affine': ('rdl', lambda A, cc: 2 * A.y + 1),
+    'sum': ('rdl', lambda A, cc: A.x.sum()),
+    'rand': ('rd', lambda A, cc: A.zs),
+    'abs': ('rdl', lambda A, cc: -abs(A.y) if cc else abs(A.y)),
+    'square': ('rdl', lambda A, cc: -_rs().square(A.y) if cc else _rs().square(A.y)),
+    'sumsqr': ('rdl', lambda A, cc: -_rs().sumsqr(A.x) if cc else _rs().sumsqr(A.x)),
+    'norm2': ('rdl', lambda A, cc: -_rs().norm(A.x) if cc else _rs().norm(A.x)),
+    'norm1': ('rdl', lambda A, cc: -_rs().norm(A.x, 1) if cc else _rs().norm(A.x, 1)),
+    'exp|log': ('rdl', lambda A, cc: _rs().log(A.y) if cc else _rs().exp(A.y)),
+    'entropy': ('rdl', lambda A, cc: _rs().entropy(A.x) if cc else -_rs().entropy(A.x)),
+    'pexp|plog': ('rdl', lambda A, cc: _rs().plog(A.y, A.w) if cc else _rs().pexp(A.y, A.w)),
+    'pexp|plog(num-scale)': ('rdl', lambda A, cc: _rs().plog(A.y, 2.0) if cc else _rs().pexp(A.y, 2.0)),
+    'maxof|minof': ('rd', lambda A, cc: (_rs().minof if cc else _rs().maxof)(2 * A.x[0] - 1, 1 - A.x[0])),
+    'maxof|minof(const)': ('rd', lambda A, cc: (_rs().minof if cc else _rs().maxof)(A.y, 0.5)),
+    'maxof|minof(3)': ('rd', lambda A, cc: (_rs().minof if cc else _rs().maxof)(A.x[0], A.x[1], A.y + 1)),
+    'maxof|minof(rand)': ('rd', lambda A, cc: (_rs().minof if cc else _rs().maxof)(A.x[0] + A.zs, A.x[1])),
+    'maxof|minof(biaffine)': ('rd', lambda A, cc: (_rs().minof if cc else _rs().maxof)(A.x[0] * A.zs, A.x[1])),
+    '-minof|-maxof': ('rd', lambda A, cc: -(_rs().maxof if cc else _rs().minof)(A.x[0], A.x[1])),
+    '2*maxof|minof': ('rd', lambda A, cc: 2 * (_rs().minof if cc else _rs().maxof)(A.x[0], A.x[1])),
+    'maxof|minof+var': ('rd', lambda A, cc: (_rs().minof if cc else _rs().maxof)(A.x[0], A.x[1]) + A.w),
+    'E(maxof|minof)': ('d', lambda A, cc: _E()((_rs().minof if cc else _rs().maxof)(A.x[0], A.x[1]))),
+    'E(maxof|minof(rand))': ('d', lambda A, cc: _E()((_rs().minof if cc else _rs().maxof)(A.x[0] + A.zs, A.x[1]))),
+    'E(maxof|minof(biaffine))': ('d', lambda A, cc: _E()((_rs().minof if cc else _rs().maxof)(A.x[0] * A.zs, A.x[1]))),
+    'biaffine': ('rd', lambda A, cc: A.x @ A.z),
+    'biaffine(scalar)': ('rd', lambda A, cc: A.y * A.zs + A.w),
+    'E(biaffine)': ('d', lambda A, cc: _E()(A.x @ A.z)),
+    'E(var)': ('d', lambda A, cc: _E()(A.y)),
+    'ldr': ('r', lambda A, cc: A.ldr[0]),
+    'ldr(adapted)': ('r', lambda A, cc: (A.ldr.adapt(A.z), A.ldr[0])[1]),
+    'adaptive': ('d', lambda A, cc: (A.v.adapt(A.z), A.v[0])[1]),
+}
+
+_ARR = np.array([0.0, 10.0])
+_POS = np.array([1.0, 2.0])
+
+
+def _iadd(b, a):
+    b += a
+    return b
+
+
+def _isub(b, a):
+    b -= a
+    return b
+
+
+# name: (flip, fn(A, b) -> expression);  flip: the route turns a convex base into a concave expression.
+# Routes marked 'scalar' in NS_CONTROL_ROUTES are controls (size 1: must stay usable, counted only).
+NS_ROUTES = {
+    'b+arr': (False, lambda A, b: b + _ARR),
+    'arr+b': (False, lambda A, b: _ARR + b),
+    'b-arr': (False, lambda A, b: b - _ARR),
+    'arr-b': (True, lambda A, b: _ARR - b),
+    'b*arr': (False, lambda A, b: b * _POS),
+    'arr*b': (False, lambda A, b: _POS * b),
+    'b*(-arr)': (True, lambda A, b: b * (-_POS)),
+    'b/arr': (False, lambda A, b: b / _POS),
+    'b+zeros(2)': (False, lambda A, b: b + np.zeros(2)),
+    'b+int-arr': (False, lambda A, b: b + np.array([0, 10])),
+    'b+bool-arr': (False, lambda A, b: b + np.array([False, True])),
+    'b+arr(3,)': (False, lambda A, b: b + np.array([0.0, 10.0, -4.0])),
+    'b+arr(1,2)': (False, lambda A, b: b + _ARR.reshape((1, 2))),
+    'b+arr(2,1)': (False, lambda A, b: b + _ARR.reshape((2, 1))),
+    'b+arr(2,2)': (False, lambda A, b: b + np.array([[0.0, 10.0], [1.0, 2.0]])),
+    'arr(2,2)+b': (False, lambda A, b: np.array([[0.0, 10.0], [1.0, 2.0]]) + b),
+    'b-arr(2,2)': (False, lambda A, b: b - np.array([[0.0, 10.0], [1.0, 2.0]])),
+    'b+list': (False, lambda A, b: b + [0.0, 10.0]),
+    'b+=arr': (False, lambda A, b: _iadd(b, _ARR)),
+    'b-=arr': (False, lambda A, b: _isub(b, _ARR)),
+    'np.add(b,arr)': (False, lambda A, b: np.add(b, _ARR)),
+    'np.add(arr,b)': (False, lambda A, b: np.add(_ARR, b)),
+    'np.subtract(b,arr)': (False, lambda A, b: np.subtract(b, _ARR)),
+    'sum([b,arr])': (False, lambda A, b: sum([b, _ARR])),
+    '(b+1)+arr': (False, lambda A, b: (b + 1) + _ARR),
+    '(b+arr)+1': (False, lambda A, b: (b + _ARR) + 1),
+    '(b+arr)-arr': (False, lambda A, b: (b + _ARR) - _ARR),
+    '(b+arr)*2': (False, lambda A, b: (b + _ARR) * 2),
+    '2*(b-arr)': (False, lambda A, b: 2 * (b - _ARR)),
+    '(2*b)+arr': (False, lambda A, b: (2 * b) + _ARR),
+    '-(b+arr)': (True, lambda A, b: -(b + _ARR)),
+    '-(arr-b)': (False, lambda A, b: -(_ARR - b)),
+    'b+vec': (False, lambda A, b: b + A.x),
+    'vec+b': (False, lambda A, b: A.x + b),
+    'b-vec': (False, lambda A, b: b - A.x),
+    'vec-b': (True, lambda A, b: A.x - b),
+    'b+vec-affine': (False, lambda A, b: b + (2 * A.x + 1)),
+    'vec-affine+b': (False, lambda A, b: (2 * A.x + 1) + b),
+    'b+mat': (False, lambda A, b: b + A.X),
+    'b+vec-rand': (False, lambda A, b: b + A.z),
+    'vec-rand+b': (False, lambda A, b: A.z + b),
+    'b+vec-biaffine': (False, lambda A, b: b + A.x * A.z),
+    'vec-biaffine+b': (False, lambda A, b: A.x * A.z + b),
+    'concat([b,b])': (False, lambda A, b: _rs().concat([b, b])),
+    'rstack(b,b)': (False, lambda A, b: _rs().rstack(b, b)),
+    'vec(b,b)': (False, lambda A, b: _rs().vec(b, b)),
+    # controls: the same routes with ONE element stay scalar
+    'b+arr(1,)': (False, lambda A, b: b + np.array([10.0])),
+    'b-arr(1,1)': (False, lambda A, b: b - np.array([[10.0]])),
+    'b+1': (False, lambda A, b: b + 1.0),
+    '2*b': (False, lambda A, b: 2 * b),
+    'b+var': (False, lambda A, b: b + A.w),
+}
+NS_CONTROL_ROUTES = ('b+arr(1,)', 'b-arr(1,1)', 'b+1', '2*b', 'b+var')
+NS_DIRECT_SKIP = ('b+mat', 'b+vec-rand', 'vec-rand+b', 'b+vec-biaffine', 'vec-biaffine+b')   # D has no X / z
+
+
+def ns_size(e):
+    """Number of objective values denoted by expression e, measured on the object (None when unknown)."""
+    try:
+        if hasattr(e, 'pieces'):
+            return max(int(ns_size(p) or 1) for p in e.pieces)
+        if hasattr(e, 'indices') and hasattr(e.indices, 'size') and not hasattr(e, 'size'):
+            return int(e.indices.size)
+        if hasattr(e, 'size'):
+            s = e.size
+            return int(s() if callable(s) else s)
+        if hasattr(e, 'to_affine'):
+            return int(e.to_affine().size)
+        return int(np.size(e))
+    except Exception:  # noqa
+        return None
+
+
+def ns_objects(fe):
+    return D(fe) if fe in DIRECT_MODELS else M(fe)
+
+
+def ns_call_obj(A, meth, e):
+    if A.fe in DIRECT_MODELS:
+        getattr(A.m, meth)(e)
+    else:
+        call_obj(A, meth, e)
 
 READBACK = {
     # name: (front ends, fn(A, ctx) -> value)   ctx: dict with the constraints returned by st()
